@@ -182,7 +182,8 @@ CLAIMED = {
              "new or existing file and checks header-only-first, rows of a call = its tracts in order, re-opening loses nothing; "
              "each history is executed with random attribute subsets/orders (all 27 documented attributes regularly, unknown "
              "names), 4 header options and optional UIDs; after every call the file is re-read with csv.reader, rows are "
-             "identified and compared with the model's row sequence, write() counts and the RuntimeError on a closed writer "
+             "identified and compared with the model's row sequence, write() counts, the RuntimeError on a closed writer and "
+             "the TypeError of a write() that holds a foreign object (which must leave the file as it was) "
              "are checked, and every cell is compared with the tract attribute; tracts_to_dict / _list / iter forms: one "
              "record per tract, in order, keys as requested, values equal attributes, unknown name => '<name>: n/a'.",
         note="Trusted: row identification by (trs, desc) cells and the leaf-in-order cell comparison done in Python "
